@@ -13,6 +13,7 @@ integers as JSON integers, a missing value as `null`.
   ["range_index_of", [tick…], pos, mode]                   ["range_range_indices", [tick…], s, e, smode]
   ["range_tick_at", [tick…], index]                        ["range_axis", [tick…], count, start]
   ["set_index_of", n, pos, mode]                           ["set_range_indices", n, s, e, smode]
+  ["to_index_mode", smode]                                 → {"ok": "less" | "leq" | "geq" | null}
 
 `mode` is an `IndexMode` member name (aliases accepted; anything else is "not a member"), `smode`
 is "Exclusive" or "Inclusive" (anything else: `ValueError`, as the code's first test).
@@ -125,6 +126,16 @@ def handle (j : Json) : Json :=
       | some sm => outPair (setRangeIndices n.toNat s e sm)
       | none => err .valueError
     | _, _, _ => bad "C07: set_range_indices arguments"
+  | [Json.str "to_index_mode", sm] =>
+    match jSlice? sm with
+    | some sm =>
+      match sliceToIndexMode sm with
+      | some .less => ok (Json.str "less")
+      | some .leq => ok (Json.str "leq")
+      | some .geq => ok (Json.str "geq")
+      | some .other => ok (Json.str "other")
+      | none => ok Json.null
+    | none => bad "C07: to_index_mode argument"
   | _ => bad "C07: unknown op"
 
 def main : IO Unit := pureLoop handle
